@@ -37,6 +37,7 @@ pub struct OpRec {
     /// id written (insert variants, get_mut+write)
     pub id: u64,
     pub cost: i64,
+    pub aux: i64,
     pub ttl_ns: u64,
     /// returned true / Ok
     pub ok: bool,
@@ -116,7 +117,7 @@ fn ttl_for(rng: &mut Rng) -> u64 {
 }
 
 /// One client. Returns its op records (+ barrier-mode verdicts).
-fn client(d: Arc<dyn Drv>, h: HCfg, tid: u8, ids: Arc<AtomicU64>, clears: Arc<(AtomicU64, AtomicU64)>) -> (Vec<OpRec>, u64, u64, Vec<(u64, u64, String)>) {
+fn client(d: Arc<dyn Drv>, h: HCfg, tid: u8, ids: Arc<AtomicU64>, clears: Arc<(AtomicU64, AtomicU64, AtomicU64)>) -> (Vec<OpRec>, u64, u64, Vec<(u64, u64, String)>) {
     sched::set_role(tid);
     let mut rng = Rng::new(h.seed ^ (tid as u64) << 32 ^ 0xabcdef);
     let mut recs: Vec<OpRec> = Vec::with_capacity(h.ops as usize + 8);
@@ -149,6 +150,15 @@ fn client(d: Arc<dyn Drv>, h: HCfg, tid: u8, ids: Arc<AtomicU64>, clears: Arc<(A
             r -= *w;
         }
         let mut key = if barrier { tid as u64 * 1000 + rng.below(h.keys) } else { rng.below(h.keys) };
+        if h.mode == "pairs" {
+            // fresh keys, each taken by two consecutive callers: one inserts it, the other removes it
+            let n = clears.2.fetch_add(1, Ordering::SeqCst);
+            key = 10_000 + n / 2;
+            op = if n % 2 == 0 { OP_INSERT } else { OP_REMOVE };
+            if rng.chance(1, 6) {
+                op = OP_INSERT;
+            }
+        }
         if barrier && batch_n.contains_key(&key) && rng.chance(4, 5) {
             // prefer a key this batch has not written yet
             for _ in 0..4 {
@@ -160,13 +170,15 @@ fn client(d: Arc<dyn Drv>, h: HCfg, tid: u8, ids: Arc<AtomicU64>, clears: Arc<(A
             }
         }
         let mut rec = OpRec { tid, op, key, ..Default::default() };
+        let _ = &mut op;
         match op {
             OP_INSERT | OP_IF_PRESENT => {
                 let id = ids.fetch_add(1, Ordering::SeqCst);
                 rec.id = id;
                 rec.cost = rng.range(1, h.cost_max as u64) as i64;
                 rec.ttl_ns = if op == OP_INSERT && rng.below(10) < h.ttl_share as u64 { ttl_for(&mut rng) } else { 0 };
-                let v = Tracked::with_aux(id, key, rng.range(0, 4) as i64);
+                rec.aux = rng.range(0, 4) as i64;
+                let v = Tracked::with_aux(id, key, rec.aux);
                 let before = val::tl_exits();
                 rec.call = seq::next();
                 let res = if op == OP_INSERT { d.try_insert(key, v, rec.cost, Duration::from_nanos(rec.ttl_ns)) } else { d.try_insert_if_present(key, v, rec.cost) };
@@ -379,7 +391,7 @@ pub fn run_history(flavor: Flavor, h: &HCfg) -> Hist {
         sched::arm_delays(h.seed | 1, pm, us);
     }
     let ids = Arc::new(AtomicU64::new((h.seed << 20) | 1));
-    let clears = Arc::new((AtomicU64::new(0), AtomicU64::new(0)));
+    let clears = Arc::new((AtomicU64::new(0), AtomicU64::new(0), AtomicU64::new(0)));
     let stop = Arc::new(AtomicBool::new(false));
     let ticks = Arc::new(AtomicU64::new(0));
     phase("ops");
@@ -474,7 +486,12 @@ pub fn finish(flavor: Flavor, h: &HCfg, d: Arc<dyn Drv>, ops: Vec<OpRec>, ticks_
     let metrics_before_final = d.metrics();
     let _ = metrics_before_final;
     let mut final_gets = Vec::new();
-    let key_list: Vec<u64> = if h.mode == "barrier" { (1..=h.threads as u64).flat_map(|t| (0..h.keys).map(move |k| t * 1000 + k)).collect() } else { (0..h.keys).collect() };
+    let key_list: Vec<u64> = if h.mode == "pairs" {
+        let mut ks: Vec<u64> = ops.iter().map(|o| o.key).collect();
+        ks.sort();
+        ks.dedup();
+        ks
+    } else if h.mode == "barrier" { (1..=h.threads as u64).flat_map(|t| (0..h.keys).map(move |k| t * 1000 + k)).collect() } else { (0..h.keys).collect() };
     for k in key_list {
         let mut rec = OpRec { tid: 100, op: OP_GET, key: k, ..Default::default() };
         rec.call = seq::next();
@@ -665,6 +682,18 @@ pub fn check_history(hist: &Hist, rep: &mut Report) {
         }
     }
     let resident_ids: HashSet<u64> = store.values().cloned().collect();
+
+    // ---------------------------------------------------------------- C09: no replacement the validator refuses
+    if hist.h.vld_mode != 0 {
+        for o in ops.iter().filter(|o| matches!(o.op, OP_INSERT | OP_IF_PRESENT) && o.ok && o.update_path) {
+            if let Some(prev) = write_of.get(&o.exited_id) {
+                rep.count("ho_c09_replacements_checked_against_validator");
+                if matches!(prev.op, OP_INSERT | OP_IF_PRESENT) && !crate::val::vld_decide(hist.h.vld_mode, prev.id, prev.aux, o.id, o.aux) {
+                    rep.violate("C09", "veto/replacement-installed-against-validator", format!("{} replaced the value of {} although the update validator (mode {}) refuses that pair (previous weight {}, new weight {})", o.short(), prev.short(), hist.h.vld_mode, prev.aux, o.aux), json!({"history": d, "timeline_of_key": key_timeline(hist, o.key, o.ret + 2)}));
+                }
+            }
+        }
+    }
 
     // ---------------------------------------------------------------- C09: insert_if_present never creates an entry
     for o in ops.iter().filter(|o| o.op == OP_IF_PRESENT && !o.err) {
@@ -898,6 +927,40 @@ pub fn check_history(hist: &Hist, rep: &mut Report) {
             rep.violate("C15", "metrics/gets-kept-plus-dropped", format!("gets_kept {gkept} + gets_dropped {gdrop} outside [{plo}, {phi}]"), json!({"history": d}));
         }
     }
+    // C15: the flushed batches are the look-ups, cut every buffer_items keys: each look-up is recorded once
+    {
+        let capa = hist.h.cfg.buffer_items.max(1);
+        let mut looked: HashMap<u64, u64> = HashMap::new();
+        let mut total_lookups = 0u64;
+        for o in ops.iter().chain(hist.final_gets.iter()).filter(|o| matches!(o.op, OP_GET | OP_GET_MUT | OP_GET_MUT_WRITE)) {
+            *looked.entry(o.key).or_insert(0) += 1;
+            total_lookups += 1;
+        }
+        let mut pushed: HashMap<u64, u64> = HashMap::new();
+        let mut total_pushed = 0u64;
+        for e in hist.policy.iter() {
+            if let observe::Ev::Push { keys, .. } = e {
+                if keys.len() != capa {
+                    rep.violate("C15", "batch/size-not-buffer-items", format!("a flushed batch holds {} keys, buffer_items is {}", keys.len(), hist.h.cfg.buffer_items), json!({"history": d}));
+                }
+                for k in keys {
+                    *pushed.entry(*k).or_insert(0) += 1;
+                    total_pushed += 1;
+                }
+            }
+        }
+        rep.add("ho_c15_lookups_accounted", total_lookups);
+        let want = total_lookups / capa as u64 * capa as u64;
+        if total_pushed != want {
+            rep.violate("C15", "batch/lookups-not-recorded-once", format!("{total_lookups} look-ups with buffer_items {} must flush {want} keys, {total_pushed} were flushed", hist.h.cfg.buffer_items), json!({"history": d}));
+        }
+        for (k, n) in pushed.iter() {
+            if *n > looked.get(k).copied().unwrap_or(0) {
+                rep.violate("C15", "batch/key-recorded-more-often-than-looked-up", format!("key {k} appears {n} times in flushed batches but was looked up {} times", looked.get(k).copied().unwrap_or(0)), json!({"history": d}));
+                break;
+            }
+        }
+    }
     // C15: applied == kept; drops only with a full queue (sync: 3 batches) — conservative bound
     {
         let mut kept = 0u64;
@@ -942,6 +1005,7 @@ pub fn gen_history(prop: &str, rng: &mut Rng, hno: u64) -> HCfg {
     let mode: &'static str = match prop {
         "C10" => "barrier",
         "C15" => "readers",
+        "pairs" => "pairs",
         _ => "mixed",
     };
     let threads = *rng.pick(&[2u8, 3, 4, 4, 6, 8, 12, 16]);
@@ -978,8 +1042,8 @@ pub fn gen_history(prop: &str, rng: &mut Rng, hno: u64) -> HCfg {
     HCfg {
         cfg: Cfg {
             num_counters: *rng.pick(&[100usize, 1000, 10_000]),
-            max_cost,
-            buffer_size: *rng.pick(&[1usize, 2, 4, 16, 1024, 32 * 1024]),
+            max_cost: if mode == "pairs" { 1 << 40 } else { max_cost },
+            buffer_size: if mode == "pairs" { 32 * 1024 } else { *rng.pick(&[1usize, 2, 4, 16, 1024, 32 * 1024]) },
             buffer_items: *rng.pick(&[0usize, 1, 2, 3, 64]),
             metrics: true,
             ignore_internal: true,
@@ -998,7 +1062,7 @@ pub fn gen_history(prop: &str, rng: &mut Rng, hno: u64) -> HCfg {
         ttl_share: if mode == "barrier" { 0 } else { 3 },
         cost_max,
         start_ns: 1_700_000_000_000_000_000 + hno * 137_000_000,
-        vld_mode: if (prop == "C08" || prop == "C09") && rng.chance(1, 3) { rng.range(1, 4) as u8 } else { 0 },
+        vld_mode: if prop == "C09" && rng.chance(2, 3) { *rng.pick(&[2u8, 2, 3, 4]) } else if prop == "C08" && rng.chance(1, 3) { rng.range(1, 4) as u8 } else { 0 },
         seed: rng.next() >> 16,
     }
 }
@@ -1009,7 +1073,7 @@ pub fn run(ctx: &Ctx, rng: Rng, rep: &mut Report) {
     let watchdog = Duration::from_secs(if ctx.thorough() { 300 } else { 120 });
     for hno in 0..histories {
         let mut hrng = rng.derive(hno);
-        let h = gen_history(&ctx.prop, &mut hrng, ctx.shard * 100_000 + hno);
+        let h = gen_history(ctx.mode.as_deref().unwrap_or(&ctx.prop), &mut hrng, ctx.shard * 100_000 + hno);
         let flavor = flavors[(hno % flavors.len() as u64) as usize];
         let h2 = h.clone();
         let sup = supervised("hostile", watchdog, move || run_history(flavor, &h2));
